@@ -281,4 +281,41 @@ PROPS = {
             {"kind": "race", "runs": {"quick": 80, "thorough": 1500}, "profiles": ["release", "debug"]},
         ],
     },
+    "C03": {
+        "level": "model_checking",
+        "claim": "For a cell the specification gives exact expectations: the centre lies in the open cell at local coordinates (i+1/2, j+1/2), "
+                 "the vertices returned in the order S, E, N, W are the four nodes of the cell as sphere points (Canon, so that a vertex expressed "
+                 "in a neighbouring base cell is recognised), every point of the edge path / inner grid lies in a face whose star contains the cell "
+                 "(and on the border for the path), interior offsets map where the grid says. TLC generates all cells of small depths and the "
+                 "corner / border classes of each base cell at deep depths; recorded calls on random cells and positions (hash_with_dxdy: cell in "
+                 "StarFace, equal to hash() off borders, offsets in [0,1], position recovered through the SPECIFICATION's cell origin within 1e-13 "
+                 "rad, sph_coo inverse) are judged by the trace spec; out-of-range cell numbers must panic in every accessor.",
+        "rule": "events = cellgeo (center, vertices x4 accessors, 25 sph_coo offsets, edge path, grid, inward-nudged re-hash), hash_dxdy, cell_bad; "
+                "non-trivial = border / seam classes and cells on base-cell borders",
+        "assumptions": GEO_ASSUME,
+        "stages": [
+            {"kind": "mc", "module": "MC_Geo", "cfg": {"quick": "MC_Geo.cfg", "thorough": "MC_Geo_thorough.cfg"}, "workers": 6},
+            {"kind": "gentrace", "module": "Gen_Neigh", "cfg": {"quick": "Gen_Neigh.cfg", "thorough": "Gen_Neigh_thorough.cfg"}, "scenario": "C03",
+             "trace_module": "Trace_Geo", "trace_cfg": "Trace_Geo.cfg", "exhaustive": True},
+            {"kind": "rec", "scenario": "C03", "count": {"quick": 12000, "thorough": 300000}, "trace_module": "Trace_Geo", "trace_cfg": "Trace_Geo.cfg",
+             "nontrivial": lambda ev: ev.get("cls") != "uniform"},
+        ],
+    },
+    "C19": {
+        "level": "model_checking",
+        "claim": "The four cells must be the cell containing the position (StarFace) or its neighbours in the specification's adjacency (not the "
+                 "crate's own neighbour tables), that cell present, weights >= 0 summing to 1, weight 1 at the centre, the barycentre identity "
+                 "in integer cell coordinates when the four cells share a base cell, and a duplicated cell only next to a missing cardinal "
+                 "neighbour with weight 0. TLC generates all cells of small depths and base-cell corner / border classes (7 positions each: centre, "
+                 "the four quadrants, near two borders); recorded random positions at all depths are validated by the trace spec.",
+        "rule": "events = bilinear_interpolation(position) with the cell of hash_with_dxdy; non-trivial = non-uniform classes",
+        "assumptions": GEO_ASSUME,
+        "stages": [
+            {"kind": "mc", "module": "MC_Geo", "cfg": {"quick": "MC_Geo.cfg", "thorough": "MC_Geo_thorough.cfg"}, "workers": 6},
+            {"kind": "gentrace", "module": "Gen_Neigh", "cfg": {"quick": "Gen_Neigh.cfg", "thorough": "Gen_Neigh_thorough.cfg"}, "scenario": "C19",
+             "trace_module": "Trace_Geo", "trace_cfg": "Trace_Geo.cfg", "exhaustive": True},
+            {"kind": "rec", "scenario": "C19", "count": {"quick": 12000, "thorough": 300000}, "trace_module": "Trace_Geo", "trace_cfg": "Trace_Geo.cfg",
+             "nontrivial": lambda ev: ev.get("cls") != "uniform"},
+        ],
+    },
 }
